@@ -59,11 +59,15 @@ def suites():
         # states after enable / disable calls (a core feature may be switched off): save / load keeps the registry
         "x_featns": (variant("featns", "x_featns", formats=["internal"]), 80, 800),
         "x_feat13": (variant("feat13", "x_feat13", formats=["internal"]), 60, 600),
+        # stored positions that are not the mask centroids (constructed from a graph that carries them); the GEFF name
+        # map of the re-import also comes without the area (recomputed) - loaded positions must survive
+        "x_seg13o": (variant("seg13", "x_seg13o", rebuild={"shift": 0, "posoff": True},
+                             formats=["csv", "geff", "geff_na", "internal"]), 40, 400),
         "x_seg13b": (variant("seg13", "x_seg13b", rebuild={"shift": -300}, seg_dtype="uint8"), 40, 600),
     }
 
 
-PLAN = {"C14": ["x_struct4", "x_struct0", "x_structc", "x_peraxis", "x_structk", "x_seg13", "x_seg13n", "x_seg3d", "x_featns", "x_feat13"],
+PLAN = {"C14": ["x_struct4", "x_struct0", "x_structc", "x_peraxis", "x_structk", "x_seg13", "x_seg13n", "x_seg3d", "x_featns", "x_feat13", "x_seg13o"],
         "C15": ["x_struct4", "x_struct0", "x_seg13e", "x_seg13f", "x_seg3d", "x_seg13b"],
         "C16": ["x_struct4", "x_struct0", "x_peraxis", "x_structk", "x_structz", "x_structzf", "x_structzc", "x_seg13e", "x_seg13f", "x_seg13n", "x_seg3d"]}
 
